@@ -779,9 +779,38 @@ def check_C16(tier, seed):
     return finish(rep)
 
 
+def check_CONF(tier, seed):
+    """full refinement of the operational models by the hook event sequences (not a listed property): DRIFT lines, evidence/_conformance.json"""
+    rep = Report("CONF", tier, seed)
+    rng = random.Random(seed)
+    quick = tier == "quick"
+    r1, r2 = stages_mc(rep, quick, memo=MEMO, check_work=True)
+    r3 = structs_mc(rep, quick, early=EARLY, check_work=True)
+    rb = run_mc("MC_BindGroupData.tla", "MC_BindGroupData.cfg", workers=8, consts={"MaxLen": "4", "MaxGroup": "2", "MaxBinding": "2"})
+    cases = cases_from_S(r1.cases[::(3 if quick else 1)], "shape", "stages-shape") + cases_from_S(r2.cases[::(3 if quick else 1)], "ctx", "stages-ctx")
+    cases += cases_from_S(r3.cases[::(4 if quick else 1)], "role", "struct-roles", vary_validate=False, o=F.opts(enc=True))
+    cases += F.bgd_cases_from_export(rb.cases[::(3 if quick else 1)], quick)
+    cases += random_shader_cases(rng, 500 if quick else 10000, "rnd", "random", n_fn=(0, 6), n_entry=(1, 4), depth=2)
+    by_id = {c["id"]: c for c in cases}
+    trace = run_vdriver(cases, "CONF_all", keep=["mods"], detail=100000)
+    tr = validate_trace(trace, "CONF")
+    rep.evaluations += len(cases)
+    rep.traces += tr.judged
+    drift = [v for v in tr.verdicts]
+    for v in drift[:20]:
+        print("DRIFT case=%s %s" % (v.get("id"), v.get("msg", "")[:300]))
+    os.makedirs(EVIDENCE, exist_ok=True)
+    json.dump({"engine": "conformance", "tier": tier, "cases": len(cases), "judged": tr.judged, "drift": len(drift), "samples": drift[:5],
+               "bound": ["bgd.scan order = declaration-order scan up to the first duplicate", "density test iff no duplicate", "stage.walk sequence = Stages.tla walk log (memo per entry)",
+                         "stage.entry order = entry point order", "types.visit count = TypeClosure.tla work", "hook work counters = model counters"]},
+              open(os.path.join(EVIDENCE, "_conformance.json"), "w"), indent=1)
+    log("[CONF] %d cases judged, %d drift" % (tr.judged, len(drift)))
+    return 2 if drift else 0
+
+
 # Does the specification of the stage walk memoise callees per entry point? (the code does since the C20 fix)
 MEMO = True
 # Does the type closure return early on a type it has already inserted? (the code does since the C20 fix)
 EARLY = True
 
-CHECKS = {"C11": check_C11, "C03": check_C03, "C08": check_C08, "C20": check_C20, "C13": check_C13, "C09": check_C09, "C17": check_C17, "C18": check_C18, "C19": check_C19, "C06": check_C06, "C04": check_C04, "C14": check_C14, "C07": check_C07, "C12": check_C12, "C15": check_C15, "C16": check_C16, "C05": check_C05, "C01": check_C01, "C10": check_C10, "C02": check_C02}
+CHECKS = {"C11": check_C11, "C03": check_C03, "C08": check_C08, "C20": check_C20, "C13": check_C13, "C09": check_C09, "C17": check_C17, "C18": check_C18, "C19": check_C19, "C06": check_C06, "C04": check_C04, "C14": check_C14, "C07": check_C07, "C12": check_C12, "C15": check_C15, "C16": check_C16, "C05": check_C05, "C01": check_C01, "C10": check_C10, "C02": check_C02, "CONF": check_CONF}
